@@ -452,13 +452,16 @@ func (sc *RevScenario) evalCert(rc *ruleCtx, obs *RevObs, co *CallObs, v *CertVi
 		refOCSP(v.OCSP, 0, nil, false, &ops)
 	}
 	ocspMayBeUnknown, ocspMustBeDecisive := len(v.OCSP) == 0, len(v.OCSP) > 0
+	ocspCouldBeDecisive := false
 	for _, o := range ops {
 		if o.res == result.ResultUnknown {
 			ocspMayBeUnknown = true
 			ocspMustBeDecisive = false
+		} else {
+			ocspCouldBeDecisive = true
 		}
 	}
-	if rc.on("C10") && len(v.OCSP) == 0 && len(crl) > 0 {
+	if rc.on("C10") && len(crl) > 0 && (len(v.OCSP) == 0 || (ocspMayBeUnknown && !ocspCouldBeDecisive)) {
 		// authentic current lists only: every alt set derives from the entries
 		clean := true
 		for _, s := range crl {
